@@ -148,6 +148,10 @@ class SchedDict(dict):
         return self.ctl.access("contains", self.ctl.key_name(key), lambda: dict.__contains__(self, key),
                                lambda r: "in" if r else "out")
 
+    def get(self, key, default=None):
+        return self.ctl.access("lookup", self.ctl.key_name(key), lambda: dict.get(self, key, default),
+                               lambda r: "none" if r is None else ("T" if r else "F"))
+
     def __setitem__(self, key, value):
         return self.ctl.access("set", self.ctl.key_name(key), lambda: dict.__setitem__(self, key, value),
                                lambda r: "T" if value else "F")
@@ -167,8 +171,10 @@ class LoggingLock:
         return self
 
     def __exit__(self, *exc):
-        self.ctl.event("release")
-        return self.inner.__exit__(*exc)
+        try:
+            self.ctl.event("release")       # may itself fail (RecursionError near the stack limit)
+        finally:
+            return self.inner.__exit__(*exc)
 
 
 class Installed:
@@ -236,7 +242,7 @@ def run_threads(ctl: Controller, bodies: Dict[str, Callable[[], Any]], switch_in
 
     def runner(name: str, body):
         ctl.names[threading.get_ident()] = name
-        barrier.wait()
+        barrier.wait(60)
         try:
             results[name] = ("ok", body())
         except BaseException as exc:  # noqa
@@ -251,7 +257,7 @@ def run_threads(ctl: Controller, bodies: Dict[str, Callable[[], Any]], switch_in
         ths = [threading.Thread(target=runner, args=(n, b), daemon=True) for n, b in bodies.items()]
         for th in ths:
             th.start()
-        barrier.wait()
+        barrier.wait(60)
         ctl.drive(list(bodies))
         for th in ths:
             th.join(20)
